@@ -38,6 +38,7 @@ type Engine struct {
 	verbose   bool
 	loadErrs  []string
 	noInline  map[string]bool
+	sentinels map[string]bool
 }
 
 func loadEngine(repo string, patterns []string) (*Engine, error) {
@@ -147,4 +148,40 @@ func sortedKeys[V any](m map[string]V) []string {
 	}
 	sort.Strings(ks)
 	return ks
+}
+
+// sentinelError: is pkgpath.Name a package-level variable initialised by errors.New / fmt.Errorf / errors.Errorf?
+func (e *Engine) sentinelError(full string) bool {
+	if e.sentinels == nil {
+		e.sentinels = map[string]bool{}
+		for path, p := range e.pkgs {
+			for _, f := range p.Syntax {
+				for _, d := range f.Decls {
+					gd, ok := d.(*ast.GenDecl)
+					if !ok || gd.Tok != token.VAR {
+						continue
+					}
+					for _, sp := range gd.Specs {
+						vs := sp.(*ast.ValueSpec)
+						for i, n := range vs.Names {
+							if i >= len(vs.Values) {
+								continue
+							}
+							call, ok := vs.Values[i].(*ast.CallExpr)
+							if !ok {
+								continue
+							}
+							if sel, ok := call.Fun.(*ast.SelectorExpr); ok {
+								if id, ok := sel.X.(*ast.Ident); ok && (id.Name == "errors" || id.Name == "fmt") &&
+									(sel.Sel.Name == "New" || sel.Sel.Name == "Errorf") {
+									e.sentinels[path+"."+n.Name] = true
+								}
+							}
+						}
+					}
+				}
+			}
+		}
+	}
+	return e.sentinels[full]
 }
